@@ -1,3 +1,552 @@
-/- Property theorems for C13 (stub: not built yet). -/
+/-
+C13  Series transformers are invertible, index-preserving and aligned in time.
+Property theorems about SkVerif/Model/SeriesTransform.lean.  Only theorems + non-vacuity examples.
+
+Reading guide (model names ↔ sktime):
+  `desTransform s false/true`  Deseasonalizer.transform / inverse_transform   `desUpdate` .update   `desFit` .fit
+  `detApply reg s false/true`  Detrender.transform / inverse_transform        `detUpdate`, `detFit`
+  `colApply s f`               BoxCoxTransformer / LogTransformer / TabularToSeriesAdaptor around the library map `f`
+  `stepBasic` / `step` / `run` one public call / incl. fit_transform / a history of calls on one object
+Values are `Option Rat` (`none` = NaN or ±inf), so every statement covers all finite inputs under
+exact arithmetic and says where non-finite values go.
+-/
+import SkVerif.Model.SeriesTransform
+import SkVerif.Lemmas.SeriesAlign
+import SkVerif.Lemmas.SeriesRound
+import SkVerif.Lemmas.SeriesPhase
+import SkVerif.Lemmas.SeriesShift
+import SkVerif.Lemmas.SeriesMachine
 namespace SkVerif.C13
+open SkVerif SkVerif.ST SkVerif.Lem.ST
+
+-- =============================================================================================
+-- 1. alignment of the seasonal component
+
+/-- `_align_seasonal`, for EVERY start label `t` of the transformed stretch (before, inside or after
+the training series) and every reference `y0`: position `i` receives the seasonal value of phase
+`(t + i - y0) mod sp`. -/
+theorem aligned_seasonal_eq_phase (sp : Nat) (seas : List Rat) (hlen : seas.length = sp) (hsp : 0 < sp)
+    (y0 t : Int) (v : Val) (rest : Series) (i : Nat) (hi : i < rest.length + 1) :
+    (alignSeasonal sp seas y0 ((t, v) :: rest))[i]? = seas[((t + (i : Int) - y0) % (sp : Int)).toNat]? :=
+  alignSeasonal_getElem? sp seas hlen hsp y0 t v rest i hi
+
+/-- On a stretch of time (labels `t, t+1, …`) transform / inverse_transform remove / restore, at
+each label, the seasonal value of that label's phase relative to the stored reference: a function of
+`(label - y0) mod sp` only — not of where the stretch starts. -/
+theorem deseason_component_depends_on_phase_only (s : Des) (hwf : DesWF s) (seas : List Rat) (y0 : Int)
+    (hf : s.fitted = true) (hs : s.seasonal = some seas) (hy : s.y0 = some y0)
+    (inv : Bool) (t : Int) (z : Series) (hv : checkSeries false (.series z) = .ok z) (hc : Contiguous t z) :
+    desTransform s inv (.series z)
+      = (s, .ser (z.map (fun p => (p.1, desOp s.mult inv p.2 (phaseVal s.sp seas y0 p.1))))) :=
+  desTransform_contiguous s hwf seas y0 hf hs hy inv t z hv hc
+
+/-- inverse_transform(transform(z)) = z for the deseasonalizer, same index, every series the
+transformer accepts (any labels, NaN stay NaN): additive always; multiplicative when no seasonal
+value is 0 (statsmodels' multiplicative components are positive). -/
+theorem deseason_inverse_roundtrip (s : Des) (hwf : DesWF s) (seas : List Rat) (hs : s.seasonal = some seas)
+    (hnz : s.mult = true → ∀ c ∈ seas, c ≠ 0) (z zt : Series)
+    (h : desTransform s false (.series z) = (s, .ser zt)) :
+    desTransform s true (.series zt) = (s, .ser z) := by
+  unfold desTransform at h ⊢
+  by_cases hf : s.fitted = true
+  · simp only [hf, Bool.not_true, Bool.false_eq_true, ↓reduceIte] at h ⊢
+    cases hcs : checkSeries false (.series z) with
+    | error e => simp [hcs] at h
+    | ok z' =>
+      have hz' := checkSeries_series_ok false z z' hcs
+      subst hz'
+      simp only [hcs, hs] at h ⊢
+      cases hy : s.y0 with
+      | none => simp [hy] at h
+      | some y0 =>
+        simp only [hy, Prod.mk.injEq, Out.ser.injEq, true_and] at h
+        have hne : seas.length ≠ 0 := by have := hwf.2 seas hs; have := hwf.1; omega
+        have hal := alignSeasonal_length s.sp seas hne y0 z'
+        have hl : labels zt = labels z' := by rw [← h]; exact labels_desApply _ _ _ _ hal
+        rw [checkSeries_labels false z' zt hl hcs]
+        simp only
+        rw [alignSeasonal_congr s.sp seas y0 z' zt hl, ← h]
+        rw [desApply_roundtrip s.mult z' _ hal
+          (fun hm c hc => hnz hm c (mem_alignSeasonal _ _ _ _ _ hc))]
+  · simp [hf] at h
+
+-- =============================================================================================
+-- 2. the phase does not depend on the history — PARTIAL, see the two negations below
+
+/-- operations of the proved part: transform / inverse_transform on anything, and `update` with a
+batch that is rejected or starts a multiple of the period away from the training start.  No re-fit. -/
+def AlignedOp (t0 : Int) (sp : Nat) : Op → Prop
+  | .update inp _ => ∀ z u v rest, checkSeries false inp = .ok z → z = (u, v) :: rest → (u - t0) % (sp : Int) = 0
+  | .transform _ _ => True
+  | .inverse _ _ => True
+  | _ => False
+
+/-- the object after a history of calls -/
+def finalState (reg : Reg) (st : TState) (ops : List Op) : TState :=
+  ops.foldl (fun st op => (step reg st op).1) st
+
+theorem aligned_op_keeps_reference (reg : Reg) (s : Des) (t0 : Int) (seas : List Rat) (h0 : PhaseRef s t0 seas)
+    (op : Op) (ha : AlignedOp t0 s.sp op) :
+    ∃ s', (step reg (.des s) op).1 = .des s' ∧ PhaseRef s' t0 seas ∧ s'.sp = s.sp ∧ s'.mult = s.mult := by
+  cases op with
+  | fit inp d => exact absurd ha (by simp [AlignedOp])
+  | fitTransform inp d f => exact absurd ha (by simp [AlignedOp])
+  | update inp u =>
+    have := desUpdate_phaseRef s t0 seas h0 inp ha
+    exact ⟨_, rfl, this⟩
+  | transform inp f =>
+    refine ⟨(desTransform s false inp).1, rfl, ?_⟩
+    rw [desTransform_state]; exact ⟨h0, rfl, rfl⟩
+  | inverse inp f =>
+    refine ⟨(desTransform s true inp).1, rfl, ?_⟩
+    rw [desTransform_state]; exact ⟨h0, rfl, rfl⟩
+
+/-
+FULL STATEMENT (property text): after `fit` on a series starting at `t0`, for EVERY later history of
+update / transform / inverse_transform calls, transform / inverse_transform of a stretch of time
+remove / restore at label `l` the seasonal value of phase `(l - t0) mod sp`.
+
+It is FALSE for the code as it stands (`phase_depends_on_unaligned_update`,
+`phase_depends_on_failed_refit` below): `Deseasonalizer.update` re-points `_y_index` at the batch, and
+`fit` stores `_y_index` before the decomposition can fail.  Proved here under the excluding
+hypothesis `AlignedOp` (accepted update batches start ≡ t0 mod sp; no re-fit in between).
+-/
+theorem phase_independent_of_updates_partial (reg : Reg) (s : Des) (t0 : Int) (seas : List Rat)
+    (h0 : PhaseRef s t0 seas) (ops : List Op) (hops : ∀ op ∈ ops, AlignedOp t0 s.sp op)
+    (inv : Bool) (t : Int) (z : Series) (hv : checkSeries false (.series z) = .ok z) (hc : Contiguous t z)
+    (f : List Val → List Val) :
+    (step reg (finalState reg (.des s) ops)
+        (if inv then .inverse (.series z) f else .transform (.series z) f)).2
+      = .ser (z.map (fun p => (p.1, desOp s.mult inv p.2 (phaseVal s.sp seas t0 p.1)))) := by
+  induction ops generalizing s with
+  | nil =>
+    obtain ⟨hf, hs, hwf, y0, hy, hm⟩ := h0
+    have := desTransform_contiguous s hwf seas y0 hf hs hy inv t z hv hc
+    have e : (fun p : Int × Val => (p.1, desOp s.mult inv p.2 (phaseVal s.sp seas t0 p.1)))
+        = (fun p : Int × Val => (p.1, desOp s.mult inv p.2 (phaseVal s.sp seas y0 p.1))) := by
+      funext p; rw [phaseVal_congr s.sp seas y0 t0 p.1 hm]
+    rw [e]
+    cases inv <;> simp only [finalState, List.foldl_nil, step, stepBasic, this, Bool.false_eq_true, ↓reduceIte]
+  | cons op ops ih =>
+    obtain ⟨s', hs', hp', hsp', hm'⟩ := aligned_op_keeps_reference reg s t0 seas h0 op (hops op List.mem_cons_self)
+    have := ih s' hp' (fun o ho => by rw [hsp']; exact hops o (List.mem_cons_of_mem _ ho))
+    simp only [finalState, List.foldl_cons, hs'] at this ⊢
+    rw [hsp', hm'] at this
+    exact this
+
+/-- the same, starting from the `fit` call: `fit(z₁) [update(zᵢ) | transform | inverse]* transform(z')`.
+`t0` is the first label of the training series, `seas` the component statsmodels returned for it. -/
+theorem phase_after_fit_partial (reg : Reg) (s : Des) (hsp : 0 < s.sp) (inp : Input) (d : FitData)
+    (hd : ∀ seas, d.seasonal = some seas → seas.length = s.sp)
+    (hok : (step reg (.des s) (.fit inp d)).2 = .ok) :
+    ∃ t0 seas v rest, checkSeries false inp = .ok ((t0, v) :: rest) ∧
+      ∀ (ops : List Op), (∀ op ∈ ops, AlignedOp t0 s.sp op) →
+      ∀ (inv : Bool) (t : Int) (z : Series), checkSeries false (.series z) = .ok z → Contiguous t z →
+      ∀ (f : List Val → List Val),
+        (step reg (finalState reg (step reg (.des s) (.fit inp d)).1 ops)
+            (if inv then .inverse (.series z) f else .transform (.series z) f)).2
+          = .ser (z.map (fun p => (p.1, desOp s.mult inv p.2 (phaseVal s.sp seas t0 p.1)))) := by
+  have hok' : (desFit s inp d).2 = .ok := by simpa [step, stepBasic] using hok
+  obtain ⟨z1, seas, t0, v, rest, hcs, hz1, hp, hsp', hm'⟩ := desFit_phaseRef s hsp inp d hd hok'
+  subst hz1
+  refine ⟨t0, seas, v, rest, hcs, ?_⟩
+  intro ops hops inv t z hv hc f
+  have := phase_independent_of_updates_partial reg (desFit s inp d).1 t0 seas hp ops
+    (fun o ho => by rw [hsp']; exact hops o ho) inv t z hv hc f
+  rw [hsp', hm'] at this
+  simpa [step, stepBasic] using this
+
+/-- a fitted additive deseasonalizer, sp = 2, trained from label 0, seasonal component (1, -1) -/
+def witnessDes : Des :=
+  { sp := 2, mult := false, cond := false, y0 := some 0, seasonal := some [1, -1], fitted := true }
+
+/-- NEGATION of the full statement (1): after `update` with a batch starting at label 3 (3 mod 2 ≠ 0)
+the component removed at label 0 is that of phase 1, not phase 0: the same one-point stretch
+transforms to -1 before and to +1 after the update. -/
+theorem phase_depends_on_unaligned_update :
+    (step polyReg (.des witnessDes) (.transform (.series [(0, some 0)]) id)).2 = .ser [(0, some (-1))]
+    ∧ (step polyReg (finalState polyReg (.des witnessDes) [.update (.series [(3, some 5)]) none])
+        (.transform (.series [(0, some 0)]) id)).2 = .ser [(0, some 1)] := by
+  constructor <;> decide +kernel
+
+/-- NEGATION of the full statement (2): a re-fit that raises (one observation, sp = 2: fewer than two
+periods) still moves the phase reference of the object, which stays fitted. -/
+theorem phase_depends_on_failed_refit :
+    (step polyReg (.des witnessDes) (.fit (.series [(3, some 5)]) {})).2 = .err .value
+    ∧ (step polyReg (finalState polyReg (.des witnessDes) [.fit (.series [(3, some 5)]) {}])
+        (.transform (.series [(0, some 0)]) id)).2 = .ser [(0, some 1)] := by
+  constructor <;> decide +kernel
+
+-- =============================================================================================
+-- 3. Detrender
+
+/-- inverse_transform(transform(z)) = z for the detrender, same index, for EVERY embedded
+regression `reg`, every state (after any updates), every stretch (training, later, overlapping,
+earlier); NaN stay NaN. -/
+theorem detrend_roundtrip (reg : Reg) (s s1 : Det) (z zt : Series)
+    (h : detApply reg s false (.series z) = (s1, .ser zt)) :
+    detApply reg s1 true (.series zt) = (s1, .ser z) := by
+  unfold detApply at h
+  by_cases hf : s.fitted = true
+  · simp only [hf, Bool.not_true, Bool.false_eq_true, ↓reduceIte] at h
+    cases hcs : checkSeries false (.series z) with
+    | error e => simp [hcs] at h
+    | ok z' =>
+      have hz' := checkSeries_series_ok false z z' hcs
+      subst hz'
+      simp only [hcs] at h
+      cases hfc : s.fc with
+      | none => simp [hfc] at h
+      | some fc =>
+        simp only [hfc] at h
+        by_cases hnd : (labels z').Nodup
+        · simp only [hnd, decide_true, Bool.not_true, Bool.false_eq_true, ↓reduceIte] at h
+          cases htr : fc.train with
+          | none => cases hh : fc.y.head? <;> simp [htr, hh] at h
+          | some tv =>
+            cases hh : fc.y.head? with
+            | none => simp [htr, hh] at h
+            | some o =>
+              obtain ⟨o, ov⟩ := o
+              simp only [htr, hh, Prod.mk.injEq, Out.ser.injEq] at h
+              obtain ⟨hs1, hzt⟩ := h
+              subst hs1
+              have hl : labels zt = labels z' := by
+                rw [← hzt]; simp [labels, List.map_map, Function.comp_def]
+              unfold detApply
+              simp only [Bool.not_true, Bool.false_eq_true, ↓reduceIte]
+              rw [checkSeries_labels false z' zt hl hcs]
+              simp only [hl, hnd, decide_true, Bool.not_true, Bool.false_eq_true, ↓reduceIte, hh]
+              rw [← hzt]
+              simp only [List.map_map, Function.comp_def, vadd_vsub, Prod.mk.eta, List.map_id']
+        · simp [hnd] at h
+  · simp [hf] at h
+
+/-- the trend removed / restored at a time point is a function of that point's LABEL and of the
+object's state only — not of the position inside the passed series. -/
+theorem detrend_trend_is_function_of_label (reg : Reg) (s : Det) :
+    ∃ trend : Int → Rat, ∀ (inv : Bool) (z : Series) (s' : Det) (out : Series),
+      detApply reg s inv (.series z) = (s', .ser out) →
+      out = z.map (fun p => (p.1, (if inv then vadd else vsub) p.2 (trend p.1))) := by
+  cases hfc : s.fc with
+  | none =>
+    refine ⟨fun _ => 0, ?_⟩
+    intro inv z s' out h
+    unfold detApply at h
+    split at h
+    · simp at h
+    · split at h
+      · simp at h
+      · simp [hfc] at h
+  | some fc =>
+    cases htr : fc.train with
+    | none =>
+      refine ⟨fun _ => 0, ?_⟩
+      intro inv z s' out h
+      unfold detApply at h
+      split at h
+      · simp at h
+      · split at h
+        · simp at h
+        · simp only [hfc, htr] at h
+          split at h
+          · simp at h
+          · cases fc.y.head? <;> simp at h
+    | some tv =>
+      cases hh : fc.y.head? with
+      | none =>
+        refine ⟨fun _ => 0, ?_⟩
+        intro inv z s' out h
+        unfold detApply at h
+        split at h
+        · simp at h
+        · split at h
+          · simp at h
+          · simp only [hfc, htr, hh] at h
+            split at h <;> simp at h
+      | some o =>
+        refine ⟨fun l => reg s.degree tv (l - o.1), ?_⟩
+        intro inv z s' out h
+        unfold detApply at h
+        split at h
+        · simp at h
+        · split at h
+          · simp at h
+          · rename_i z' hcs
+            have := checkSeries_series_ok false z z' hcs
+            subst this
+            simp only [hfc, htr, hh] at h
+            split at h
+            · simp at h
+            · simp only [Prod.mk.injEq, Out.ser.injEq] at h
+              exact h.2.symm
+
+-- =============================================================================================
+-- 4. Box-Cox / log / tabular adaptor around an uninterpreted library map
+
+/-- Box-Cox / log round trip, stated for ANY element-wise pair `g`, `ginv` with
+`g x = y finite → ginv y = x` (the hypothesis on scipy's `boxcox`/`inv_boxcox` at the fitted
+lambda, resp. `log`/`exp`): the inverse of the transform exists, has the index of `z`, and returns
+`z`'s value wherever the transformed value is finite. -/
+theorem boxcox_roundtrip (g ginv : Val → Val)
+    (hinv : ∀ x y, g (some x) = some y → ginv (some y) = some x)
+    (s : Col) (z zt : Series) (h1 : colApply s (List.map g) (.series z) = (s, .ser zt)) :
+    ∃ zb, colApply s (List.map ginv) (.series zt) = (s, .ser zb) ∧ labels zb = labels z ∧
+      ∀ (i : Nat) (t : Int) (x y : Rat),
+        z[i]? = some (t, some x) → zt[i]? = some (t, some y) → zb[i]? = some (t, some x) := by
+  unfold colApply at h1
+  by_cases hf : s.fitted = true
+  · simp only [hf, Bool.not_true, Bool.false_eq_true, ↓reduceIte] at h1
+    cases hcs : checkSeries false (.series z) with
+    | error e => simp [hcs] at h1
+    | ok z' =>
+      have hz' := checkSeries_series_ok false z z' hcs
+      subst hz'
+      simp only [hcs, List.length_map, values, ne_eq, not_true_eq_false, ↓reduceIte, Prod.mk.injEq,
+        Out.ser.injEq, true_and] at h1
+      have hzt : zt = z'.map (fun p => (p.1, g p.2)) := by
+        rw [← h1]; exact zip_labels_map_values z' g
+      have hl : labels zt = labels z' := by
+        rw [hzt]; simp [labels, List.map_map, Function.comp_def]
+      refine ⟨zt.map (fun p => (p.1, ginv p.2)), ?_, ?_, ?_⟩
+      · unfold colApply
+        simp only [hf, Bool.not_true, Bool.false_eq_true, ↓reduceIte]
+        rw [checkSeries_labels false z' zt hl hcs]
+        simp only [List.length_map, values, ne_eq, not_true_eq_false, ↓reduceIte, Prod.mk.injEq,
+          Out.ser.injEq, true_and]
+        exact zip_labels_map_values zt ginv
+      · rw [← hl]; simp [labels, List.map_map, Function.comp_def]
+      · intro i t x y hz hzti
+        rw [hzt, List.getElem?_map, hz] at hzti
+        simp only [Option.map_some, Option.some.injEq, Prod.mk.injEq, true_and] at hzti
+        rw [List.getElem?_map, hzt, List.getElem?_map, hz]
+        simp only [Option.map_some, Option.some.injEq, Prod.mk.injEq, true_and]
+        rw [hzti]; exact hinv x y hzti
+  · simp [hf] at h1
+
+/-- column-wise version (TabularToSeriesAdaptor): for ANY pair of column maps with
+`finv (f xs) = xs` (the fitted sklearn transformer and its inverse), whenever transform returns a
+series, inverse_transform of it returns `z` exactly, index included. -/
+theorem adaptor_roundtrip (f finv : List Val → List Val)
+    (hinv : ∀ xs, finv (f xs) = xs)
+    (s : Col) (z zt : Series) (h1 : colApply s f (.series z) = (s, .ser zt)) :
+    colApply s finv (.series zt) = (s, .ser z) := by
+  unfold colApply at h1
+  by_cases hf : s.fitted = true
+  · simp only [hf, Bool.not_true, Bool.false_eq_true, ↓reduceIte] at h1
+    cases hcs : checkSeries false (.series z) with
+    | error e => simp [hcs] at h1
+    | ok z' =>
+      have hz' := checkSeries_series_ok false z z' hcs
+      subst hz'
+      simp only [hcs] at h1
+      by_cases hlen : (f (values z')).length = z'.length
+      · simp only [hlen, ne_eq, not_true_eq_false, ↓reduceIte, Prod.mk.injEq, Out.ser.injEq, true_and] at h1
+        have hlen' : (f (values z')).length = (labels z').length := by simpa [labels] using hlen
+        have hl : labels zt = labels z' := by rw [← h1]; exact labels_zip _ _ hlen'
+        have hv : values zt = f (values z') := by rw [← h1]; exact values_zip _ _ hlen'
+        unfold colApply
+        simp only [hf, Bool.not_true, Bool.false_eq_true, ↓reduceIte]
+        rw [checkSeries_labels false z' zt hl hcs]
+        have hzl : zt.length = z'.length := by
+          have := congrArg List.length hl; simpa [labels] using this
+        have hvl : (values z').length = z'.length := by simp [values]
+        simp only [hv, hinv, hl, hzl, hvl, ne_eq, not_true_eq_false, ↓reduceIte, zip_labels_values]
+      · simp [hlen] at h1
+  · simp [hf] at h1
+
+-- =============================================================================================
+-- 5. index preservation (transformers tagged "transform-returns-same-time-index")
+
+/-- the tagged transformers: (conditional) deseasonalizer with one seasonal value per phase,
+detrender, Box-Cox, log, tabular adaptor -/
+def Tagged : TState → Prop
+  | .des s => DesWF s
+  | .det _ => True
+  | .col _ => True
+  | _ => False
+
+/-- whenever transform / inverse_transform of a tagged transformer returns a series, it carries
+exactly the input's index (same labels, same order, same length). -/
+theorem index_preserved (reg : Reg) (st : TState) (ht : Tagged st) (inv : Bool) (z : Series)
+    (f : List Val → List Val) (st' : TState) (out : Series)
+    (h : stepBasic reg st (if inv then .inverse (.series z) f else .transform (.series z) f) = (st', .ser out)) :
+    labels out = labels z := by
+  have hcs_of : ∀ z', checkSeries false (.series z) = .ok z' → z' = z := checkSeries_series_ok false z
+  cases st with
+  | des s =>
+    have hd : (desTransform s inv (.series z)).2 = .ser out := by
+      cases inv <;> simp only [stepBasic, Bool.false_eq_true, ↓reduceIte, Prod.mk.injEq] at h <;> exact h.2
+    unfold desTransform at hd
+    split at hd
+    · simp at hd
+    · split at hd
+      · simp at hd
+      · rename_i z' hcs
+        have := hcs_of z' hcs
+        subst this
+        split at hd
+        · rename_i seas y0 hs hy
+          simp only [Out.ser.injEq] at hd
+          rw [← hd]
+          apply labels_desApply
+          apply alignSeasonal_length
+          have := ht.2 seas hs; have := ht.1; omega
+        · simp at hd
+  | det s =>
+    have hd : (detApply reg s inv (.series z)).2 = .ser out := by
+      cases inv <;> simp only [stepBasic, Bool.false_eq_true, ↓reduceIte, Prod.mk.injEq] at h <;> exact h.2
+    obtain ⟨trend, htr⟩ := detrend_trend_is_function_of_label reg s
+    have := htr inv z (detApply reg s inv (.series z)).1 out (by rw [← hd])
+    rw [this]
+    simp [labels, List.map_map, Function.comp_def]
+  | col s =>
+    have hd : (colApply s f (.series z)).2 = .ser out := by
+      cases inv
+      · simp only [stepBasic, Bool.false_eq_true, ↓reduceIte, Prod.mk.injEq] at h; exact h.2
+      · simp only [stepBasic, ↓reduceIte] at h
+        split at h
+        · simp at h
+        · simp only [Prod.mk.injEq] at h; exact h.2
+    unfold colApply at hd
+    split at hd
+    · simp at hd
+    · split at hd
+      · simp at hd
+      · rename_i z' hcs
+        have := hcs_of z' hcs
+        subst this
+        dsimp only at hd
+        split at hd
+        · simp at hd
+        · rename_i hlen
+          simp only [Out.ser.injEq] at hd
+          rw [← hd]
+          apply labels_zip
+          simp only [ne_eq, Decidable.not_not] at hlen
+          simpa [labels] using hlen
+  | hampel cfg fitted => exact absurd ht (by simp [Tagged])
+  | pass p i h' fl ft => exact absurd ht (by simp [Tagged])
+
+/-- OptionalPassthrough(passthrough=True) returns the validated input itself -/
+theorem passthrough_returns_input (reg : Reg) (p i : TState) (h : Bool) (inv : Bool) (z : Series)
+    (f : List Val → List Val) (hi : hasInverse p = true) (hv : checkSeries false (.series z) = .ok z) :
+    (stepBasic reg (.pass p i h true true) (if inv then .inverse (.series z) f else .transform (.series z) f)).2
+      = .ser z := by
+  cases inv <;> simp [stepBasic, hv, hi]
+
+-- =============================================================================================
+-- 6. fit_transform = fit followed by transform
+
+/-- `BaseTransformer.fit_transform` (no series transformer overrides it): if `fit` raises, so does
+`fit_transform`, leaving the object as the failed `fit` left it; … -/
+theorem fit_transform_fit_error (reg : Reg) (st : TState) (inp : Input) (d : FitData)
+    (f : List Val → List Val) (e : Err) (h : (step reg st (.fit inp d)).2 = .err e) :
+    step reg st (.fitTransform inp d f) = ((step reg st (.fit inp d)).1, .err e) := by
+  simp only [step] at h ⊢
+  rw [h]
+
+/-- … otherwise its result and the object's state are those of `fit` followed by `transform`
+on the same data. -/
+theorem fit_transform_eq_fit_then_transform (reg : Reg) (st : TState) (inp : Input) (d : FitData)
+    (f : List Val → List Val) (h : (step reg st (.fit inp d)).2 = .ok) :
+    step reg st (.fitTransform inp d f) = step reg (step reg st (.fit inp d)).1 (.transform inp f) := by
+  simp only [step] at h ⊢
+  rw [h]
+
+/-- the same as a statement about histories -/
+theorem fit_transform_history (reg : Reg) (st : TState) (inp : Input) (d : FitData)
+    (f : List Val → List Val) (h : (step reg st (.fit inp d)).2 = .ok) :
+    run reg st [.fit inp d, .transform inp f] = [.ok, (step reg st (.fitTransform inp d f)).2]
+    ∧ finalState reg st [.fit inp d, .transform inp f] = finalState reg st [.fitTransform inp d f] := by
+  have := fit_transform_eq_fit_then_transform reg st inp d f h
+  simp only [run, finalState, List.foldl_cons, List.foldl_nil, h, this, and_self]
+
+-- =============================================================================================
+-- 7. shifting the integer time index of all inputs — PARTIAL (HampelFilter excluded)
+
+/-
+FULL STATEMENT (property text): for EVERY series transformer, shifting the labels of all inputs of a
+history by a constant shifts the labels of every output by the same constant and leaves all values
+(and all raised errors) unchanged.
+
+FALSE for HampelFilter as coded (`hampel_not_shift_equivariant`): `_hampel_filter` looks its windows
+up by label.  Proved for every other transformer of the model (`Positional`: no Hampel filter inside),
+for every call and every history, any regression `reg` inside the detrender, any library map `f`.
+-/
+theorem shift_equivariance_partial (reg : Reg) (c : Int) (st : TState) (hp : Positional st) (op : Op) :
+    step reg (shiftState c st) (shiftOp c op)
+      = (shiftState c (step reg st op).1, shiftOut c (step reg st op).2) :=
+  step_shift reg c st hp op
+
+/-- a freshly constructed transformer remembers no label -/
+def Fresh : TState → Prop
+  | .des s => s.y0 = none
+  | .det s => s.fc = none
+  | .col _ => True
+  | .hampel _ _ => True
+  | .pass p i _ _ _ => Fresh p ∧ Fresh i
+
+theorem shiftState_fresh (c : Int) (st : TState) (h : Fresh st) : shiftState c st = st := by
+  induction st with
+  | des s =>
+    simp only [Fresh] at h
+    simp only [shiftState, shiftDes, h, Option.map_none]
+    cases s; simp_all
+  | det s =>
+    simp only [Fresh] at h
+    simp only [shiftState, shiftDet, h, Option.map_none]
+    cases s; simp_all
+  | col s => rfl
+  | hampel cfg f => rfl
+  | pass p i h' fl ft ihp ihi => simp only [shiftState, ihp h.1, ihi h.2]
+
+/-- histories: the same calls with all labels shifted, on a fresh object, return the shifted results -/
+theorem shift_equivariance_history_partial (reg : Reg) (c : Int) (st : TState) (hp : Positional st)
+    (hfresh : Fresh st) (ops : List Op) :
+    run reg st (ops.map (shiftOp c)) = (run reg st ops).map (shiftOut c) := by
+  have := run_shift reg c st hp ops
+  rwa [shiftState_fresh c st hfresh] at this
+
+/-- NEGATION for HampelFilter (window 3, n_sigma 3, k 1): the same values on labels 0..4 and on
+labels 5..9: the first gives a result (the outlier 90 becomes NaN), the second raises KeyError. -/
+theorem hampel_not_shift_equivariant :
+    (step polyReg (.hampel ⟨3, 3, 1⟩ true)
+        (.transform (.series [(0, some 1), (1, some 90), (2, some 2), (3, some 3), (4, some 4)]) id)).2
+      = .ser [(0, some 1), (1, none), (2, some 2), (3, some 3), (4, some 4)]
+    ∧ (step polyReg (.hampel ⟨3, 3, 1⟩ true)
+        (shiftOp 5 (.transform (.series [(0, some 1), (1, some 90), (2, some 2), (3, some 3), (4, some 4)]) id))).2
+      = .err .key := by
+  constructor <;> decide +kernel
+
+-- =============================================================================================
+-- non-vacuity: concrete objects meeting the hypotheses
+
+example : DesWF witnessDes := ⟨by decide, by intro seas h; simp [witnessDes] at h; subst h; rfl⟩
+example : PhaseRef witnessDes 0 [1, -1] :=
+  ⟨rfl, rfl, ⟨by decide, by intro seas h; simp [witnessDes] at h; subst h; rfl⟩, 0, rfl, by decide⟩
+example : Contiguous 7 [(7, some 1), (8, none), (9, some 3)] := by
+  intro i h
+  simp only [List.length_cons, List.length_nil] at h
+  match i, h with
+  | 0, _ => rfl
+  | 1, _ => rfl
+  | 2, _ => rfl
+example : checkSeries false (.series [(7, some 1), (8, none), (9, some 3)]) = .ok [(7, some 1), (8, none), (9, some 3)] := by
+  decide +kernel
+example : AlignedOp 0 2 (.update (.series [(4, some 1), (5, some 2)]) none) := by
+  intro z u v rest h1 h2
+  have := checkSeries_series_ok false _ z h1
+  subst this
+  simp only [List.cons.injEq, Prod.mk.injEq] at h2
+  obtain ⟨⟨hu, _⟩, _⟩ := h2
+  subst hu; decide
+example : (desTransform witnessDes false (.series [(-3, some 5), (-2, some 5)])).2 = .ser [(-3, some 6), (-2, some 4)] := by
+  decide +kernel
+example : Positional (.pass (.des witnessDes) (.des witnessDes) false false false) := ⟨trivial, trivial⟩
+example : Fresh (.det { degree := 1 }) := rfl
+example : Tagged (.col { kind := .boxcox }) := trivial
+example : (step polyReg (.det { degree := 1 }) (.fit (.series [(5, some 1), (6, some 3), (7, some 2)]) {})).2 = .ok := by
+  decide +kernel
+
 end SkVerif.C13
